@@ -199,6 +199,9 @@ func waitList(c *vf.Ctx) []waitCfg {
 	for i := 0; i < 4; i++ {
 		l = append(l, waitCfg{Kind: "special:counter-contended", Seed: c.Seed, Idx: i})
 	}
+	for i := 0; i < c.Pick(400, 4000); i++ {
+		l = append(l, waitCfg{Kind: "subscribers", Seed: c.Seed, Idx: i})
+	}
 	n := c.Pick(1500, 12000)
 	for i := 0; i < n; i++ {
 		l = append(l, waitCfg{Kind: "counter", Seed: c.Seed, Idx: i}, waitCfg{Kind: "stack", Seed: c.Seed, Idx: i})
@@ -208,6 +211,8 @@ func waitList(c *vf.Ctx) []waitCfg {
 
 func runWait(w waitCfg) waitResult {
 	switch {
+	case w.Kind == "subscribers":
+		return runSubscribers(w)
 	case w.Kind == "counter":
 		return runCounter(w)
 	case w.Kind == "stack":
@@ -490,7 +495,7 @@ func run(c *vf.Ctx) {
 	// ---- the deterministic special / not-held scenarios first, so that their replay files are the ones kept
 	nSpecial := 0
 	for _, w := range waitList(c) {
-		if w.Kind != "counter" && w.Kind != "stack" {
+		if w.Kind != "counter" && w.Kind != "stack" && w.Kind != "subscribers" {
 			nSpecial++
 		}
 	}
@@ -566,6 +571,7 @@ func run(c *vf.Ctx) {
 	c.Require("waiter_observed_returned", c.Pick(3000, 50000))
 	c.Require("wait_scenarios:special", 16)
 	c.Require("wait_scenarios:notheld", len(notHeldNames))
+	c.Require("wait_scenarios:subscribers", c.Pick(400, 4000))
 	c.Require("stress_grants_under_contention", c.Pick(20000, 300000))
 	for _, p := range racingPrims {
 		c.Require("racing_rounds:"+p, c.Pick(1500, 30000))
